@@ -146,6 +146,9 @@ func (vc *VC) generate() {
 		vc.emit(fmt.Sprintf("(declare-const %s %s)", t.S, t.Sort))
 		f.vals[p] = t
 		vc.assume(vc.typeInv(t, p.Type()))
+		if _, ok := p.Type().Underlying().(*types.Pointer); ok {
+			vc.assume(Not(Eq(t, TNull))) // a captured variable's cell exists
+		}
 	}
 	entry := State{}
 	f.old = State{}
